@@ -50,7 +50,7 @@ def axes(seed, small=False):
 ANGLES_FULL = [0.0, 5e-324, 1e-200, 1e-160, 1e-12, 1e-8, 1e-6, 1e-4, 1e-3, 0.03, 0.1, PI / 4, 1.0, PI / 2,
                2 * PI / 3, 2.5, PI - 0.01, PI - 1e-4, PI - 1e-6, PI]
 ANGLES_BEYOND = [PI + 0.1, 4.5, 6.0, 6.2]
-ANGLES_SMALL = [0.0, 1e-6, 0.1, 1.0, PI / 2, 2.5]
+ANGLES_SMALL = [0.0, 1e-6, 5e-3, 0.1, 1.0, PI / 2, 2.5]
 
 
 def vecs(seed, n=3, small=False):
@@ -138,7 +138,7 @@ def _slot_values(slot, seed, small):
     if slot[0] == "angle":
         vals = so2_angles(seed)
         if small:
-            vals = [0.0, 0.3, -0.7, 2.5, 4.0]
+            vals = [0.0, -5e-3, 0.3, -0.7, 2.5, 4.0]
         return [("a%g" % a, np.array([a]), a) for a in vals]
     if slot[0] == "vec":
         return [("v%d" % i, v, v) for i, v in enumerate(vecs(seed, slot[1], small=small))]
